@@ -2,9 +2,12 @@
    ExcSafety.v gives the control flow of the array-building helpers (allocate_unique<T[]> with detail::construct,
    the joint_array constructors with their builder inside joint_ptr::create; n = 1 covers allocate_unique<T>,
    allocate_shared and joint_ptr creation) as event lists; the harness compares the event list of the real helper,
-   element by element, with the model for every length and every failing index. *)
+   element by element, with the model for every length and every failing index.
+   JointExc.v does the same for allocate_joint, clone_joint and the move-with-allocator constructor of an object with a
+   joint_array of n elements (ids count constructions from 1; fail is the 0-based index of the throwing construction,
+   counted over the whole case, so that it can fall into the copy). *)
 From Coq Require Import List Bool Arith.
-From FM Require Import ExcSafety ExcSafetyProofs.
+From FM Require Import ExcSafety ExcSafetyProofs JointExc JointExcProofs.
 Import ListNotations.
 
 (* every length n, every failing index k < n: elements 0..k-1 are constructed once and destroyed once, nothing else
@@ -25,6 +28,27 @@ Theorem C20_success_balanced : forall n i,
   count is_alloc ev = 1 /\ count is_free ev = 1 /\ count is_throw ev = 0.
 Proof. exact create_array_success. Qed.
 Print Assumptions C20_success_balanced.
+
+(* joint helpers, every n, every failing index (also inside the copy of clone_joint / move), both flows: the elements
+   1..built are constructed once and destroyed once, nothing else is; as many nodes are given back as were obtained;
+   the exception appears exactly when a construction was told to fail *)
+Theorem C20_joint_creation_and_copy_balanced : forall n fail post i,
+  let ev := jx_case n fail post in
+  jcount (is_jc i) ev = (if in_range 1 (jx_built n fail post) i then 1 else 0) /\
+  jcount (is_jd i) ev = jcount (is_jc i) ev /\
+  jcount is_ja ev = jcount is_jf ev /\
+  jcount is_jt ev = (match fail with Some k => if Nat.ltb k (jx_total n post) then 1 else 0 | None => 0 end).
+Proof. exact jx_case_balanced. Qed.
+Print Assumptions C20_joint_creation_and_copy_balanced.
+
+(* memory is there before anything is built and the last thing that happens is that a node goes back *)
+Theorem C20_joint_memory_brackets_everything : forall n fail post, exists mid, jx_case n fail post = JxAlloc :: mid ++ [JxFree].
+Proof. exact jx_case_brackets. Qed.
+Print Assumptions C20_joint_memory_brackets_everything.
+
+Example C20_joint_nonvacuous :
+  jx_case 3 (Some 4) PCopy = [JxAlloc; JxC 1; JxC 2; JxC 3; JxAlloc; JxC 4; JxT; JxD 4; JxFree; JxD 1; JxD 2; JxD 3; JxFree].
+Proof. reflexivity. Qed.
 
 Example C20_nonvacuous : create_array 4 (Some 2) = [XAlloc; XCons 0; XCons 1; XDtor 0; XDtor 1; XFree; XThrow].
 Proof. reflexivity. Qed.
